@@ -274,6 +274,10 @@ def check_nonce(ctx):
 def check_registration(ctx):
     prog = ctx.prog
     L5 = ctx.rule("L5", "registration is check-and-act under the account write lock: synchronize/register take &mut Account from a write guard; re-registration in request_certificate only when !new_reg")
+    # a registration that succeeded records everything the next synchronize compares (URL, key / contacts / external-account
+    # fingerprints): a missing record makes the next check-and-act register the same account a second time
+    from .c11 import REG as _REG, bookkeeping_rule
+    bookkeeping_rule(ctx, L5, (_REG,))
     for key in ("acmed::account::Account::synchronize", "acmed::account::Account::register", "acmed::acme_proto::account::register_account"):
         b = prog.must_body(key)
         ins = b.raw.get("inputs", [])
